@@ -1,8 +1,10 @@
 import PybtexModel.Drv.Json
 import PybtexModel.Model.Width
+import PybtexModel.Model.TeXStringU
 import PybtexModel.Spec.TeXString
 open Lean
 namespace Pybtex.Drv.C12
+open Pybtex.TeXU
 
 def errJ : Json := obj [("error", Json.str "BibTeXError")]
 def optE (f : α → Json) : Option α → Json
@@ -21,6 +23,8 @@ def parseSep (s : String) : Except String Sep :=
   | "space" => pure .space | "comma" => pure .comma | "hyphen" => pure .hyphen | "and" => pure .and
   | _ => throw "bad sep"
 
+def outside : Json := Json.str "outside-domain"
+
 def tex (j : Json) : Except String Json := do
   let fn ← (← j.getObjVal? "fn").getStr?
   let s ← getStr j "s"
@@ -32,49 +36,89 @@ def tex (j : Json) : Except String Json := do
     let st ← getInt j "start"
     let ln ← getInt j "len"
     pure (obj [("out", strToJson (bibtexSubstring s st ln)), ("spec", strToJson (Spec.substring s st ln))])
-  | "purify" => pure (obj [("out", optE strToJson (bibtexPurify s))])
-  | "case" => pure (obj [("out", optE strToJson (changeCase s (← parseMode (← getStr j "mode"))))])
+  | "purify" => pure (obj [("out", optE strToJson (bibtexPurifyG uniOps s))])
+  | "case" =>
+    let m ← parseMode (← getStr j "mode")
+    pure (obj [("out", if caseDomain s then optE strToJson (changeCaseG uniOps s m) else outside)])
   | "width" => pure (obj [("out", optE int (bibtexWidthStd s))])
   | "fcb" => let r := findClosingBrace s; pure (obj [("out", arr [strToJson r.1, strToJson r.2])])
   | "split" =>
     let sep ← parseSep (← (← j.getObjVal? "sep").getStr?)
     pure (obj [("out", strs (splitTex sep s)), ("raw", strs (splitTexRaw sep s))])
-  | "firstletter" => pure (obj [("out", optE strToJson (bibtexFirstLetter s))])
+  | "firstletter" => pure (obj [("out", optE strToJson (bibtexFirstLetterG uniOps s))])
   | "abbreviate" =>
     let d := match j.getObjVal? "delim" with
       | .ok (Json.str x) => some x.toList
       | _ => none
-    pure (obj [("out", optE strToJson (bibtexAbbreviate s d))])
+    pure (obj [("out", optE strToJson (bibtexAbbreviateG uniOps s d))])
   | _ => throw s!"unknown tex fn {fn}"
 
-/-- everything about one string in one reply -/
+def builtinE (f : α → Json) : Except BuiltinErr α → Json
+  | .ok a => f a
+  | .error _ => errJ
+
+/-- everything about one string in one reply.  The character-class dependent primitives
+(`purify`, `case`, `firstletter`, `abbreviate`) are the Unicode-aware ones of
+`Model/TeXStringU.lean`; case change is answered only inside `caseDomain`. -/
 def texAll (j : Json) : Except String Json := do
   let s ← getStr j "s"
   let ns ← (← getArr j "ns").mapM fun x => x.getInt?
   let subs ← (← getArr j "subs").mapM fun x => do
     let a ← x.getArr?
     pure ((← (a[0]!).getInt?), (← (a[1]!).getInt?))
+  let modes ← match j.getObjVal? "modes" with
+    | .ok _ => getStrList j "modes"
+    | .error _ => pure []
+  let delims ← match j.getObjVal? "delims" with
+    | .ok _ => getStrList j "delims"
+    | .error _ => pure []
+  let dom := caseDomain s
+  let cc := fun m => optE strToJson (changeCaseG uniOps s m)
   let out := obj [
     ("scan", optE toksJ (scan s)),
     ("len", optE nat (bibtexLen s)),
-    ("purify", optE strToJson (bibtexPurify s)),
-    ("case", obj [("l", optE strToJson (changeCase s .l)), ("u", optE strToJson (changeCase s .u)), ("t", optE strToJson (changeCase s .t))]),
+    ("purify", optE strToJson (bibtexPurifyG uniOps s)),
+    ("case", if dom then obj [("l", cc .l), ("u", cc .u), ("t", cc .t)] else outside),
     ("width", optE int (bibtexWidthStd s)),
     ("split", obj [("space", strs (splitTex .space s)), ("comma", strs (splitTex .comma s)),
-                   ("hyphen", strs (splitTex .hyphen s)), ("and", strs (splitTex .and s))]),
+                   ("hyphen", strs (splitTex .hyphen s)), ("and", strs (splitNameList s))]),
     ("raw", obj [("space", strs (splitTexRaw .space s)), ("comma", strs (splitTexRaw .comma s)),
                  ("hyphen", strs (splitTexRaw .hyphen s)), ("and", strs (splitTexRaw .and s))]),
-    ("firstletter", optE strToJson (bibtexFirstLetter s)),
-    ("abbreviate", optE strToJson (bibtexAbbreviate s none)),
+    ("firstletter", optE strToJson (bibtexFirstLetterG uniOps s)),
+    ("abbreviate", optE strToJson (bibtexAbbreviateG uniOps s none)),
+    ("abbrev_d", arr (delims.map fun d => optE strToJson (bibtexAbbreviateG uniOps s (some d)))),
     ("fcb", let r := findClosingBrace s; arr [strToJson r.1, strToJson r.2]),
     ("prefix", arr (ns.map fun n => optE strToJson (bibtexPrefix s n))),
-    ("substring", arr (subs.map fun p => strToJson (bibtexSubstring s p.1 p.2)))]
+    ("substring", arr (subs.map fun p => strToJson (bibtexSubstring s p.1 p.2))),
+    -- the same primitives through the built-ins of the .bst interpreter
+    ("b", obj [
+      ("substring$", arr (subs.map fun p => strToJson (bibtexSubstring s p.1 p.2))),
+      ("text.prefix$", arr (ns.map fun n => optE strToJson (bibtexPrefix s n))),
+      ("purify$", optE strToJson (bibtexPurifyG uniOps s)),
+      ("text.length$", optE nat (bibtexLen s)),
+      ("width$", optE int (bibtexWidthStd s)),
+      ("num.names$", nat (splitNameList s).length),
+      ("change.case$", if dom then arr (modes.map fun m => builtinE strToJson (changeCaseBuiltin uniOps s m))
+                       else outside)])]
   let spec := obj [
     ("substring", arr (subs.map fun p => strToJson (Spec.substring s p.1 p.2))),
     ("balanced", Json.bool (Spec.balanced s)),
-    ("maxdepth", nat (Spec.maxDepth 0 s))]
+    ("maxdepth", nat (Spec.maxDepth 0 s)),
+    ("case_domain", Json.bool dom)]
   pure (obj [("out", out), ("spec", spec)])
 
-def handlers : List (String × (Json → Except String Json)) := [("tex", tex), ("texall", texAll)]
+/-- the splitting call sites only (cheap; for the large exhaustive "and" scope) -/
+def texSplit (j : Json) : Except String Json := do
+  let s ← getStr j "s"
+  let out := obj [
+    ("and", strs (splitNameList s)),
+    ("raw_and", strs (splitTexRaw .and s)),
+    ("space", strs (splitTex .space s)),
+    ("raw_space", strs (splitTexRaw .space s)),
+    ("num.names$", nat (splitNameList s).length)]
+  pure (obj [("out", out), ("spec", obj [("balanced", Json.bool (Spec.balanced s))])])
+
+def handlers : List (String × (Json → Except String Json)) :=
+  [("tex", tex), ("texall", texAll), ("texsplit", texSplit)]
 
 end Pybtex.Drv.C12
